@@ -463,13 +463,14 @@ func init() {
 		Name: "c19.S6.two-connections-both-lost", Prop: "C19", Also: []string{"C09"}, MaxSteps: 200000,
 		Bounds: func(thorough bool) vexp.Bounds {
 			if thorough {
-				return vexp.Bounds{P: 2, F: 1, E: 0}
+				return vexp.Bounds{P: 2, F: 1, E: 1}
 			}
 			return vexp.Bounds{P: 1, F: 0, E: 0}
 		},
 		Configs: func(thorough bool) []map[string]int {
 			return []map[string]int{{"maxconns": 2, "target": 1, "auto": 1, "order": 0}, {"maxconns": 2, "target": 1, "auto": 1, "order": 1}, {"maxconns": 2, "target": 1, "auto": 1, "order": 2},
-				{"maxconns": 2, "target": 1, "auto": 0, "order": 0}, {"maxconns": 2, "target": 1, "auto": 0, "order": 1}, {"maxconns": 3, "target": 1, "auto": 1, "order": 2}}
+				{"maxconns": 2, "target": 1, "auto": 0, "order": 0}, {"maxconns": 2, "target": 1, "auto": 0, "order": 1}, {"maxconns": 3, "target": 1, "auto": 1, "order": 2},
+				{"maxconns": 2, "target": 1, "auto": 0, "order": 3}, {"maxconns": 2, "target": 1, "auto": 1, "order": 3}}
 		},
 		Doc: "client with ClientMaxConns >= 2 and a channel target of 1: one open channel makes the client dial a second connection. Then the server drops both connections (order 0: older first, 1: newer first, 2: concurrently). At quiescence the flags must be consistent with the connection list (Connected implies that Conn returns a usable connection without dialling); an auto-connect client must come back BY ITSELF (no call is made), an on-demand client on its next call",
 		Body: func(x *vexp.Ctx) {
@@ -498,6 +499,28 @@ func init() {
 				s1.Close()
 				vsched.WaitIdle("second connection lost")
 				c19quiescent(x, c, vc, "one of two connections lost")
+				s0.Close()
+			case 3:
+				// only the newer connection is dropped while a caller asks for a connection: the older one stays open
+				// and listed the whole time, so the call must get a usable connection without any dial
+				d1, cd := false, false
+				vsched.GoNamed("drop1", func() { s1.Close(); d1 = true })
+				vsched.GoNamed("caller", func() {
+					defer func() { cd = true }()
+					for k := 0; k < 2; k++ {
+						conn, st := c.Conn(async.NoContext())
+						if !st.OK() || conn == nil {
+							x.Fail("Conn fails although a healthy connection is listed", "%v", st)
+							return
+						}
+					}
+				})
+				vsched.Join("newer connection dropped, caller done", func() bool { return d1 && cd })
+				vsched.WaitIdle("quiesce")
+				if vc.dials != before {
+					x.Fail("Conn dials although an open connection was listed the whole time", "dials %d -> %d while connection 0 stayed open", before, vc.dials)
+				}
+				c19quiescent(x, c, vc, "newer connection lost under a caller")
 				s0.Close()
 			default:
 				d0, d1 := false, false
